@@ -362,6 +362,8 @@ Proof.
   - inversion E; subst. eapply Edit_Inv; [apply set_text_spec; auto|auto].
   - eapply Edit_Inv; [eapply swap_chars_spec; eauto|auto].
   - inversion E; subst. eapply Edit_Inv; [apply validate_sync_spec; auto|auto].
+  - eapply Edit_Inv; [eapply reset_buf_spec; eauto|auto].
+  - inversion E; subst. eapply Edit_Inv; [apply validate_and_handle_spec; auto|auto].
 Qed.
 
 Theorem run_Inv ls : forall s, Inv s -> Inv (run s ls).
